@@ -28,9 +28,10 @@ PAIRS['EXT'] = ("""<schema>
  <sectiontype name="ta" datatype="vf.dtsupport.wrap">
   <key name="ka" datatype="integer" default="1"/>
   <key name="+" attribute="mp"><default key="Xa">1</default><default key="xb">2</default></key>
+  <example>ka 1</example><description>base</description>
  </sectiontype>
- <sectiontype name="tb" extends="ta" implements="aa" keytype="identifier"><key name="Kb"/></sectiontype>
- <sectiontype name="tc" extends="tb"><multikey name="kc"><default>d</default></multikey></sectiontype>
+ <sectiontype name="tb" extends="ta" implements="aa" keytype="identifier"><key name="Kb"/><example>Kb x</example><description>derived</description></sectiontype>
+ <sectiontype name="tc" extends="tb"><multikey name="kc"><default>d</default></multikey><example>kc y</example></sectiontype>
  <multisection type="aa" name="*" attribute="xs"/>
  <multisection type="tc" name="+" attribute="cs"/>
  <section type="ta" name="*" attribute="sa"/>
